@@ -132,7 +132,8 @@ CHECKS["C19"] = {
 }
 for _pid in ("C01", "C02", "C03", "C04", "C05", "C06", "C08", "C09", "C14", "C15"):
     CHECKS[_pid]["thorough"].append({"test": "TestClosure" + _pid, "timeout": 900})
-for _pid, _t in (("C01", "FuzzC01"), ("C02", "FuzzC02"), ("C11", "FuzzC11")):
-    CHECKS[_pid]["thorough"].append({"test": _t, "fuzz": True, "fuzztime": "90s", "timeout": 600, "steps": 60})
+for _pid, _t, _ft in (("C01", "FuzzC01", "90s"), ("C02", "FuzzC02", "90s"), ("C11", "FuzzC11", "90s"), ("C03", "FuzzC03", "60s"), ("C04", "FuzzC04", "60s"),
+                      ("C06", "FuzzC06", "60s"), ("C09", "FuzzC09", "60s"), ("C12", "FuzzC12", "60s"), ("C15", "FuzzC15", "60s")):
+    CHECKS[_pid]["thorough"].append({"test": _t, "fuzz": True, "fuzztime": _ft, "timeout": 600, "steps": 60})
 
 # rule texts are kept next to the generators (harness/props.go); the driver copies them from the run statistics
